@@ -135,7 +135,7 @@ def kw(call, name, what):
 
 @_target('HydroGen', ['cgsmiles/pysmiles_utils.py', 'cgsmiles/resolve.py'])
 def gen_hydro(trees):
-    out = ''
+    out = 'From Coq Require Import Floats.\n'
     # ------------------------------------------------------------------ installed pysmiles
     pr = probe_pysmiles()
     rows = []
@@ -150,6 +150,8 @@ def gen_hydro(trees):
     out += '(* pysmiles.PTE[e]["AtomicMass"]: (element, repr, float.hex) *)\n'
     out += 'Definition atomic_masses : list (pystr * (pystr * pystr)) := [\n%s].\n\n' % ';\n'.join(
         '  (%s, (%s, %s))' % (coq_str(e), coq_str(r), coq_str(h)) for e, r, h in pr['masses'])
+    out += 'Definition atomic_mass_floats : list (pystr * PrimFloat.float) := [\n%s].\n\n' % ';\n'.join(
+        '  (%s, (%s)%%float)' % (coq_str(e), h) for e, r, h in pr['masses'])
     out += '(* attributes add_explicit_hydrogens gives a new node: parse_atom("[H]") without hcount *)\n'
     out += 'Definition h_atom_defaults : attrs := [%s].\n\n' % '; '.join(
         '(%s, %s)' % (coq_str(k), pyval_lit(v)) for k, v in pr['h_atom'].items())
